@@ -117,10 +117,11 @@ def prop_status(pid, thorough=False):
     text = open(src).read()
     names = re.findall(r"^(?:Theorem|Corollary)\s+(\w+)", text, re.M)
     with Lock("coqbuild", shared=True):
-        rc, out = sh("mkdir -p %s && coqc -Q . GS -o %s props/%s.v" % (os.path.join(BUILD, "propsout"), os.path.join(BUILD, "propsout", "%s.vo" % pid), pid), 1200, cwd=COQ)
+        # per-process scratch directories: two runs of the same check (another tier, another seed) may overlap in time
+        po_dir = _scratch("propsout")
+        rc, out = sh("coqc -Q . GS -o %s props/%s.v" % (os.path.join(po_dir, "%s.vo" % pid), pid), 1200, cwd=COQ)
         # Print Assumptions for EVERY theorem of the property file (the file itself prints it for a selection only)
-        pa_dir = os.path.join(BUILD, "pa")
-        os.makedirs(pa_dir, exist_ok=True)
+        pa_dir = _scratch("pa")
         with open(os.path.join(pa_dir, "PA_%s.v" % pid), "w") as f:
             f.write("From GS Require Import props.%s.\n" % pid)
             for nm in names:
@@ -153,7 +154,7 @@ def prop_status(pid, thorough=False):
 
 def thorough_rebuild(pid):
     """From-clean full .vo build of the whole development in a private copy, then coqchk -o on the property file."""
-    d = os.path.join(BUILD, "thorough_" + pid)
+    d = os.path.join(BUILD, "thorough_%s_%d" % (pid, os.getpid()))
     sh("rm -rf %s && mkdir -p %s && cd %s && cp --parents _CoqProject gen/*.v model/*.v proofs/*.v props/*.v %s/" % (d, d, COQ, d), 120)
     rc1, o1 = sh("coq_makefile -f _CoqProject -o Makefile && make -j16 2>&1 | tail -15", 3000, cwd=d)
     built = os.path.exists(os.path.join(d, "props", pid + ".vo"))
@@ -167,12 +168,28 @@ def thorough_rebuild(pid):
     return res
 
 
+_SCRATCH = {}
+
+
+def _scratch(kind):
+    """build/<kind>/p<os pid>: private to this process, removed when it exits"""
+    if kind not in _SCRATCH:
+        import atexit
+        import shutil
+        d = os.path.join(BUILD, kind, "p%d" % os.getpid())
+        shutil.rmtree(d, ignore_errors=True)
+        os.makedirs(d, exist_ok=True)
+        _SCRATCH[kind] = d
+        atexit.register(shutil.rmtree, d, True)
+    return _SCRATCH[kind]
+
+
 _COQ_HEADER = "From Coq Require Import List ZArith NArith QArith String Ascii Bool.\nImport ListNotations.\n"
 
 
 def coq_eval(pid, name, imports, body, timeout=900):
     """Write build/cases/<pid>/<name>.v and run coqc on it. Returns (rc, stdout)."""
-    d = os.path.join(BUILD, "cases", pid)
+    d = os.path.join(_scratch("cases"), pid)
     os.makedirs(d, exist_ok=True)
     path = os.path.join(d, name + ".v")
     with open(path, "w") as f:
